@@ -9,8 +9,9 @@ checked for class, args, GlomError-ness, identity (glom_debug), and the default 
 skip_exc matrix.  Glom-detected failures are provoked directly and checked against the
 documented subtype table.
 """
+import os
 import itertools
-from collections import OrderedDict
+from collections import OrderedDict, namedtuple
 
 from .. import env
 from ..util import call_base
@@ -22,7 +23,7 @@ import glom as g  # noqa: E402
 from glom import (T, S, A, GlomError, PathAccessError, CoalesceError, UnregisteredTarget, BadSpec, PathAssignError,  # noqa: E402
                   PathDeleteError, FoldError, MatchError, TypeMatchError, CheckError, Coalesce, Match, Check, Fold, Sum,
                   Flatten, Merge, Assign, Delete, Spec, M, Switch, Or, And, Not, Val, Iter, Path, glom as G)
-from glom.grouping import Group  # noqa: E402
+from glom.grouping import Group, Limit  # noqa: E402
 
 META = {
     'level': 'fault_enumeration',
@@ -154,6 +155,13 @@ CATALOGUE = [
     ('FalsyErr', lambda: FalsyErr('falsy')), ('SizedErr', lambda: SizedErr('sized')), ('FalsyGlomErr', lambda: FalsyGlomErr('falsy glom error')),
     ('DynErr(Exception)', lambda: _dyn(Exception)), ('DynErr(ValueError)', lambda: _dyn(ValueError)), ('DynErr(KeyError)', lambda: _dyn(KeyError)),
     ('KeyboardInterrupt', lambda: KeyboardInterrupt()), ('SystemExit', lambda: SystemExit(3)), ('MyBase', lambda: MyBase('base')),
+    # messages that mention a file inside the glom package (what CPython says when an import from the package fails, or a data file
+    # next to the sources is missing), multi-line messages with blank and pointer lines (parsers)
+    ('ImportError(package path)', lambda: ImportError("cannot import name 'x' from 'glom' (%s)" % g.__file__)),
+    ('FileNotFoundError(package path)', lambda: FileNotFoundError(2, 'No such file or directory', os.path.join(os.path.dirname(g.__file__), 'no_such_data.txt'))),
+    ('UserErr(package path)', lambda: UserErr('could not load %s' % os.path.join(os.path.dirname(g.__file__), 'core.py'), code=5)),
+    ('ValueError(multi-line)', lambda: ValueError('bad input\n\n    x = = 1\n        ^\nunexpected token')),
+    ('MyGlomErr(multi-line)', lambda: MyGlomErr('line one\n  ~~~~\n', 2)),
 ]
 
 
@@ -604,6 +612,9 @@ class Unreg:
     __slots__ = ()
 
 
+_Pair = namedtuple('_Pair', 'first second')
+
+
 def glom_detected(col):
     """every documented failure kind, provoked directly, under the whole matrix"""
     table = [
@@ -622,7 +633,12 @@ def glom_detected(col):
         ('delete missing', {}, Delete('a'), PathDeleteError), ('delete missing index', [1], Delete('5'), PathDeleteError),
         ('delete missing T key', {}, Delete(T['k']), PathDeleteError), ('delete missing parent', {}, Delete('a.b'), PathAccessError),
         ('A without destination', 1, A, BadSpec), ('group bad spec', [1], Group('no strings'), BadSpec),
-        ('group dict in list', [1], Group([{T: T}]), BadSpec), ('malformed spec', {}, 5, TypeError), ('malformed nested', {'a': 1}, {'k': 5}, TypeError),
+        ('group dict in list', [1], Group([{T: T}]), BadSpec),
+        # tuples are not Group specs, whatever their length (a Pipe written as a tuple, an empty tuple, a namedtuple)
+        ('group 2-tuple spec', [1], Group((T, T)), BadSpec), ('group 3-tuple as dict value', [1], Group({T: (T, T, T)}), BadSpec),
+        ('group empty tuple in list', [1], Group([()]), BadSpec), ('group 1-tuple spec', [1], Group((T,)), BadSpec),
+        ('group namedtuple spec', [1], Group({T: _Pair(T, T)}), BadSpec), ('group tuple under Limit', [1], Group(Limit(2, (T, T))), BadSpec),
+        ('group set spec', [1], Group({T: frozenset(['a', 'b'])}), BadSpec), ('malformed spec', {}, 5, TypeError), ('malformed nested', {'a': 1}, {'k': 5}, TypeError),
         ('path on None', None, 'a', PathAccessError), ('index str', [1], 'x', PathAccessError),
         # a segment that the container cannot even look up (unhashable, e.g. taken from JSON data): still a failed access
         ('unhashable segment on dict', {'a': {}}, Path('a', ['x']), PathAccessError), ('unhashable segment on OrderedDict', OrderedDict(a=1), Path(['x']), PathAccessError),
@@ -678,7 +694,8 @@ def faults_inside_other_constructs(col, rng, n_exc):
         ('Ref-body', lambda: Ref('r', (T, f))), ('Pipe-last', lambda: Pipe(T, T, f)), ('dict-value-after-chain', lambda: ('d', {'k': ('lst', f)})),
         ('list-element-after-chain', lambda: ('d', 'lst', [f])), ('Spec-glom-entry', lambda: Spec((T, f))),
     ]
-    always = [c for c in CATALOGUE if c[0] in ('ValueError', 'KeyError', 'IndexError', 'StopIteration', 'MyGlomErrPrefix', 'FalsyErr', 'SizedErr', 'FalsyGlomErr')]
+    always = [c for c in CATALOGUE if c[0] in ('ValueError', 'KeyError', 'IndexError', 'StopIteration', 'MyGlomErrPrefix', 'FalsyErr', 'SizedErr', 'FalsyGlomErr',
+                                               'ImportError(package path)', 'ValueError(multi-line)')]
     for name, mk in shapes:
         for ename, mkexc in always + rng.sample(CATALOGUE, n_exc):
             probe = mkexc()
